@@ -149,6 +149,7 @@ func CmdCheck(args []string) int {
 	var solverQueries, solverSat, solverUnsat, solverUnknown int
 	var solverTime time.Duration
 	assertsTotal, assertsSym := 0, 0
+	selfAgree, selfTotal := 0, 0
 
 	for _, e := range spec.Entries {
 		if *only != "" && e.Func != *only {
@@ -282,7 +283,20 @@ func CmdCheck(args []string) int {
 				fmt.Printf("UNCONFIRMED property=%s label=%s replay=%s (%s)\n", id, v.Label, path, detail)
 			}
 		}
+		stMax := 3
+		if *tier == "thorough" {
+			stMax = 12
+		}
+		stAgree, stTotal := 0, 0
+		if !*noReplay {
+			var stProblems []string
+			stAgree, stTotal, stProblems = SelfTest(id, e, bounds, rep.SelfTests, stMax)
+			problems = append(problems, stProblems...)
+			selfAgree += stAgree
+			selfTotal += stTotal
+		}
 		entriesEv = append(entriesEv, map[string]interface{}{
+			"native_vs_interpreter_paths_agreeing": stAgree, "native_vs_interpreter_paths_run": stTotal,
 			"entry": e.Pkg + "." + e.Func, "bounds": bounds, "paths": rep.Paths, "path_ends": rep.Ends, "decisions": rep.Decisions,
 			"instructions_interpreted": rep.Steps, "assertions_discharged": rep.Asserts, "assertions_decided_by_solver": rep.AssertsSym,
 			"cover_points": rep.Covers, "solver_queries": rep.Solver.Queries, "solver_time_s": rep.Solver.Time.Seconds(),
@@ -316,7 +330,10 @@ func CmdCheck(args []string) int {
 	}
 	ev.Coverage["states"] = totalPaths
 	ev.Coverage["transitions"] = totalDecisions
-	ev.Coverage["traces_validated_against_impl"] = replaysOK
+	ev.Coverage["traces_validated_against_impl"] = selfAgree
+	ev.Coverage["traces_validated_note"] = "explored paths re-run natively (go test -overlay, real build) on their solver witness; cover points compared with the interpreter"
+	ev.Coverage["native_self_test_paths_run"] = selfTotal
+	ev.Coverage["counterexamples_confirmed_natively"] = replaysOK
 	ev.Coverage["native_replays_attempted"] = replays
 	ev.Coverage["evaluations"] = totalPaths
 	ev.Coverage["distinct_nontrivial"] = distinct
@@ -418,14 +435,8 @@ func writeEvidence(id string, ev *Evidence) {
 
 // ---- native replay ----
 
-// NativeReplay compiles the harness into the real package (go test -overlay)
-// and runs the entry on the concrete values of the counterexample.
-func NativeReplay(rf ReplayFile, path string) (bool, string) {
-	tmp, err := os.MkdirTemp("", "verif-replay-")
-	if err != nil {
-		return false, err.Error()
-	}
-	defer os.RemoveAll(tmp)
+// nativeBuild compiles the harness of pkg into a test binary (go test -c -overlay).
+func nativeBuild(pkg, entry, tmp string) (string, string) {
 	harnessDir := filepath.Join(VerifDir, "harness")
 	replace := map[string]string{}
 	filepath.Walk(harnessDir, func(p string, info os.FileInfo, err error) error {
@@ -435,39 +446,63 @@ func NativeReplay(rf ReplayFile, path string) (bool, string) {
 		}
 		return nil
 	})
-	// package name of the target package
-	pkgName, err := packageName(filepath.Join(RepoDir, rf.Pkg))
+	pkgName, err := packageName(filepath.Join(RepoDir, pkg))
 	if err != nil {
-		pkgName, err = packageName(filepath.Join(harnessDir, rf.Pkg))
+		pkgName, err = packageName(filepath.Join(harnessDir, pkg))
 	}
 	if err != nil {
-		return false, err.Error()
+		return "", err.Error()
 	}
-	testSrc := fmt.Sprintf("//go:build verif\n\npackage %s\n\nimport (\n\t\"testing\"\n\n\t\"%s/internal/verifapi\"\n)\n\nfunc TestVerifReplay(t *testing.T) { verifapi.RunReplay(t, %s) }\n", pkgName, Module, rf.Func)
+	testSrc := fmt.Sprintf("//go:build verif\n\npackage %s\n\nimport (\n\t\"testing\"\n\n\t\"%s/internal/verifapi\"\n)\n\nfunc TestVerifReplay(t *testing.T) { verifapi.RunReplay(t, %s) }\n", pkgName, Module, entry)
 	testFile := filepath.Join(tmp, "zz_verif_replay_test.go")
 	os.WriteFile(testFile, []byte(testSrc), 0o644)
-	replace[filepath.Join(RepoDir, rf.Pkg, "zz_verif_replay_test.go")] = testFile
+	replace[filepath.Join(RepoDir, pkg, "zz_verif_replay_test.go")] = testFile
 	ovData, _ := json.Marshal(map[string]interface{}{"Replace": replace})
 	ovFile := filepath.Join(tmp, "overlay.json")
 	os.WriteFile(ovFile, ovData, 0o644)
 	bin := filepath.Join(tmp, "replay.test")
-	env := append(os.Environ(), "GOFLAGS=-mod=mod", "GOPROXY=off", "GOSUMDB=off", "GOTOOLCHAIN=local", "VERIF_REPLAY="+path)
-	build := exec.Command("go", "test", "-c", "-o", bin, "-tags", "verif", "-vet=off", "-overlay", ovFile, "./"+rf.Pkg+"/")
+	build := exec.Command("go", "test", "-c", "-o", bin, "-tags", "verif", "-vet=off", "-overlay", ovFile, "./"+pkg+"/")
 	build.Dir = RepoDir
-	build.Env = env
+	build.Env = append(os.Environ(), "GOFLAGS=-mod=mod", "GOPROXY=off", "GOSUMDB=off", "GOTOOLCHAIN=local")
 	if bout, err := build.CombinedOutput(); err != nil {
-		os.WriteFile(path+".log", bout, 0o644)
-		return false, "native build of the harness failed (see " + path + ".log)"
+		return "", "native build of the harness failed: " + truncateStr(string(bout), 600)
 	}
+	return bin, ""
+}
+
+func truncateStr(s string, n int) string {
+	if len(s) > n {
+		return s[:n] + "…"
+	}
+	return s
+}
+
+func nativeRun(bin, pkg, tmp, replayPath string) string {
 	cmd := exec.Command(bin, "-test.run", "^TestVerifReplay$", "-test.count=1", "-test.timeout", "300s")
-	cmd.Dir = filepath.Join(RepoDir, rf.Pkg)
+	cmd.Dir = filepath.Join(RepoDir, pkg)
 	if _, err := os.Stat(cmd.Dir); err != nil {
 		cmd.Dir = tmp
 	}
-	cmd.Env = env
+	cmd.Env = append(os.Environ(), "VERIF_REPLAY="+replayPath)
 	out, _ := cmd.CombinedOutput()
-	txt := string(out)
-	os.WriteFile(path+".log", out, 0o644)
+	return string(out)
+}
+
+// NativeReplay compiles the harness into the real package (go test -overlay)
+// and runs the entry on the concrete values of the counterexample.
+func NativeReplay(rf ReplayFile, path string) (bool, string) {
+	tmp, err := os.MkdirTemp("", "verif-replay-")
+	if err != nil {
+		return false, err.Error()
+	}
+	defer os.RemoveAll(tmp)
+	bin, problem := nativeBuild(rf.Pkg, rf.Func, tmp)
+	if problem != "" {
+		os.WriteFile(path+".log", []byte(problem), 0o644)
+		return false, problem
+	}
+	txt := nativeRun(bin, rf.Pkg, tmp, path)
+	os.WriteFile(path+".log", []byte(txt), 0o644)
 	for _, ln := range strings.Split(txt, "\n") {
 		if strings.HasPrefix(ln, "REPLAY-FAILED: ") {
 			got := strings.TrimPrefix(ln, "REPLAY-FAILED: ")
@@ -488,6 +523,55 @@ func NativeReplay(rf ReplayFile, path string) (bool, string) {
 		return false, "native run passed"
 	}
 	return false, "native run inconclusive (see " + path + ".log)"
+}
+
+// SelfTest runs explored paths natively on their witness values and compares cover points and
+// observations with what the interpreter saw (translator validation). Returns agreeing, total, problems.
+func SelfTest(id string, e EntrySpec, bounds map[string]int, cases []interp.SelfTestCase, max int) (int, int, []string) {
+	if len(cases) > max {
+		cases = cases[:max]
+	}
+	if len(cases) == 0 {
+		return 0, 0, nil
+	}
+	tmp, err := os.MkdirTemp("", "verif-selftest-")
+	if err != nil {
+		return 0, len(cases), []string{err.Error()}
+	}
+	defer os.RemoveAll(tmp)
+	bin, problem := nativeBuild(e.Pkg, e.Func, tmp)
+	if problem != "" {
+		return 0, len(cases), []string{"self-test: " + problem}
+	}
+	agree := 0
+	var problems []string
+	for i, c := range cases {
+		rf := ReplayFile{Property: id, Pkg: e.Pkg, Func: e.Func, Label: "selftest", Nondet: c.Nondet, Bounds: bounds}
+		path := filepath.Join(tmp, fmt.Sprintf("case%d.json", i))
+		data, _ := json.Marshal(rf)
+		os.WriteFile(path, data, 0o644)
+		txt := nativeRun(bin, e.Pkg, tmp, path)
+		var covers, observed, failed []string
+		for _, ln := range strings.Split(txt, "\n") {
+			switch {
+			case strings.HasPrefix(ln, "REPLAY-COVER: "):
+				covers = append(covers, strings.TrimPrefix(ln, "REPLAY-COVER: "))
+			case strings.HasPrefix(ln, "REPLAY-OBSERVED: "):
+				observed = append(observed, strings.TrimPrefix(ln, "REPLAY-OBSERVED: "))
+			case strings.HasPrefix(ln, "REPLAY-FAILED: "), strings.HasPrefix(ln, "REPLAY-STOP: "), strings.HasPrefix(ln, "REPLAY-PANIC: "):
+				failed = append(failed, ln)
+			}
+		}
+		ok := len(failed) == 0 && strings.Join(covers, ",") == strings.Join(c.Covers, ",") && strings.Contains(txt, "PASS")
+		if ok {
+			agree++
+		} else {
+			problems = append(problems, fmt.Sprintf("%s: native run of an explored path disagrees with the interpreter: covers native=%v interpreter=%v %v (witness %v)",
+				e.Func, covers, c.Covers, failed, truncateStr(fmt.Sprint(c.Nondet), 300)))
+		}
+		_ = observed
+	}
+	return agree, len(cases), problems
 }
 
 func packageName(dir string) (string, error) {
